@@ -241,6 +241,25 @@ def check_property(pid, tier="quick", seed=0, jobs=None):
     violations = []
     known_hit = []
     replay_dir = os.path.join(VERIF, "replay", pid)
+    # the replay drivers of all failed obligations run concurrently (each is its own process under /venv/bin/python; a tree
+    # that fails many obligations would otherwise spend minutes replaying them one after the other)
+    pre_replayed = {}
+    _todo = []
+    for o in failed:
+        if open_known.get(o["name"]) is not None or (o["backend"] == "native-bounded" and o.get("model") is not None):
+            continue
+        drv = _driver_for(mod, pid, o["name"])
+        if drv:
+            pl = dict(property=pid, obligation=o["name"], task=o["task"], verdict="failed", backend=o["backend"],
+                      verifier_output=dict(goal=o.get("detail"), model=o.get("model"), path=o["extra"].get("path")),
+                      smt2=o["extra"].get("smt2", "")[:100000])
+            _todo.append((o["name"], drv, pl))
+    if len(_todo) > 1:
+        from concurrent.futures import ThreadPoolExecutor
+
+        with ThreadPoolExecutor(max_workers=8) as ex:
+            for (nm, _d, _p), r in zip(_todo, ex.map(lambda t: run_replay_driver(t[1], t[2]), _todo)):
+                pre_replayed[nm] = r
     for o in failed:
         k = open_known.get(o["name"])
         if k is not None:
@@ -259,7 +278,7 @@ def check_property(pid, tier="quick", seed=0, jobs=None):
             # found by running the real code: the stand-in's witness IS the failing input
             rep = dict(reproduced=True, witness=o.get("model"), detail=o.get("detail"), note="failing input found by the native stand-in on the real code")
         elif driver:
-            rep = run_replay_driver(driver, payload)
+            rep = pre_replayed[o["name"]] if o["name"] in pre_replayed else run_replay_driver(driver, payload)
         payload["replay"] = rep
         payload["replay_driver"] = driver
         with open(rp, "w") as f:
